@@ -158,10 +158,11 @@ pub fn decl_src(d: &Decl) -> String {
                 s.push_str(&format!("pub struct {} {{\n{}}}\n", d.name, fields_src(r, true, "pub ")));
             }
         }
-        DeclBody::Enum { sorted, variants } => {
+        DeclBody::Enum { sorted, variants, steps } => {
             if *sorted {
                 s.push_str("#[sorted_constructors]\n");
             }
+            s.push_str(&evolution_attr(&Record { fields: vec![], steps: steps.clone() }));
             s.push_str(&format!("pub enum {} {{\n", d.name));
             for v in variants {
                 if v.transient {
